@@ -320,8 +320,19 @@ func runC10(m *vk.M, idx int, sc c10Scenario) (fires int, ok bool) {
 				m.Violate("C10:fired-after-drain", desc(), "step %d: %d execute callbacks during Drain", step, len(f))
 			}
 			drained = true
-		case "stop":
-			w.tw.Stop()
+		case "stop", "tickstop":
+			if op.Op == "tickstop" {
+				// a tick immediately followed by Stop: the tick was taken by the wheel before Stop was called, so
+				// whatever is due in it fires. The recorder's lock is held across both calls, which parks the
+				// callbacks of that tick until Stop has returned.
+				w.mu.Lock()
+				w.tick++
+				w.tk.c <- time.Time{}
+				w.tw.Stop()
+				w.mu.Unlock()
+			} else {
+				w.tw.Stop()
+			}
 			stopped = true
 			// wait until the run loop has exited (the statement is about operations after Stop took effect)
 			if !vk.WaitUntil(20*time.Second, func() bool { return runtime.NumGoroutine() < w.baseline }) {
@@ -340,7 +351,10 @@ func runC10(m *vk.M, idx int, sc c10Scenario) (fires int, ok bool) {
 				}
 			}
 			m.Count("ops_after_stop", int64(len(errs)))
-			if f := w.takeFires(); len(f) > 0 {
+			if op.Op == "tickstop" {
+				m.Count("ticks_immediately_followed_by_stop", 1)
+				checkFires(step, op)
+			} else if f := w.takeFires(); len(f) > 0 {
 				m.Violate("C10:fired-after-stop", desc(), "step %d: %d callbacks after Stop", step, len(f))
 			}
 		}
@@ -461,7 +475,14 @@ func c10RandomScenario(r interface{ Intn(int) int }, slotsChoices []int) c10Scen
 			ops = append(ops, c10Op{Op: "tick"})
 		}
 	}
-	if end <= 1 {
+	if end == 1 && r.Intn(2) == 0 {
+		// several tasks due in the very tick that is followed by Stop
+		for j := 0; j < 2+r.Intn(3); j++ {
+			v++
+			ops = append(ops, c10Op{Op: "set", K: 1 + (j % nkeys), V: v, D: 1000 + int64(r.Intn(1000))})
+		}
+		ops = append(ops, c10Op{Op: "tickstop"})
+	} else if end <= 1 {
 		ops = append(ops, c10Op{Op: "stop"})
 	} else {
 		// run out every pending task
